@@ -2694,14 +2694,15 @@ class FactorizedFluxModel(
         value : float | np.nan
             The value of the parameter.
         """
-        for obj in (
-                super(),
+        if name in self._param_names:
+            return super().get_param(name=name)
+
+        for profile in (
                 self._spatial_profile,
                 self._energy_profile,
                 self._time_profile):
-            value = obj.get_param(name=name)
-            if not np.isnan(value):
-                return value
+            if name in profile.param_names:
+                return profile.get_param(name=name)
 
         return np.nan
 
